@@ -4,6 +4,10 @@ import json
 import os
 import sys
 
+# one BLAS/OpenMP thread per process: the stand-ins parallelise over cases themselves; nested thread pools only slow them down
+for _v in ('OMP_NUM_THREADS', 'OPENBLAS_NUM_THREADS', 'MKL_NUM_THREADS'):
+  os.environ.setdefault(_v, '1')
+
 HERE = os.path.dirname(os.path.dirname(os.path.abspath(__file__)))
 sys.path.insert(0, HERE)
 
